@@ -37,7 +37,13 @@ GeffProps.C12.  Four case kinds:
                    byte snapshot of every array around each call (a validator must not modify its input, a verdict must
                    not depend on earlier calls), on plain / read-only / non-contiguous / Fortran / big-endian arrays;
   dispatch         all 2^5 configs x declarations x which validators' data is invalid; the validators are
-                   wrapped to record which ones are evaluated.
+                   wrapped to record which ones are evaluated;
+  reader_byteorder graph validation requested ON READ x the BYTE ORDER of each stored id array (harness/corr/_c12_bo.py,
+                   GeffModel/ByteOrder.lean, GeffProps.C12ByteOrder): 8 integer dtypes x '<' / '>' independently for nodes/ids
+                   and edges/ids x zarr formats 2 (byte order in the dtype) and 3 (in the bytes codec) x directedness, through
+                   read_to_memory / geff.read / GeffReader.build + validate_data with structure validation on and off; verdict,
+                   failing validator and the offenders parsed from the message against an oracle on the STORED values; the Lean
+                   model decodes the raw chunk bytes by the byte order recorded per array and must give the same outcome.
 
 Each kind has an independent pure-Python oracle (brute force over Python ints / floats, by
 construction for ellipsoid_float); a difference implementation/oracle is a failing input, a
@@ -53,7 +59,7 @@ import struct
 import numpy as np
 
 from harness import common
-from harness.corr import _c12_ell, _c12_gen
+from harness.corr import _c12_bo, _c12_ell, _c12_gen
 
 PROP = "C12"
 INT_DTYPES = ["int8", "int16", "int32", "int64", "uint8", "uint16", "uint32", "uint64"]
@@ -1483,7 +1489,8 @@ IMPL = {"graph": impl_graph, "sphere": impl_sphere, "ellipsoid_shape": impl_ell_
         "dispatch_store": impl_dispatch_store, "history": impl_history, "reader_decl": impl_reader_decl,
         "config_history": impl_config_history,
         "ellipsoid_exact": lambda c: _c12_ell.impl(c, _outcome, _meta),
-        "np_prim": lambda c: _c12_gen.impl(c)}
+        "np_prim": lambda c: _c12_gen.impl(c),
+        "reader_byteorder": lambda c: _c12_bo.impl(c, _meta)}
 
 
 def impl_obs(c):
@@ -1531,7 +1538,7 @@ def alphabet_min(dt):
 
 
 def run(ck: common.Check):
-    ck.prove(["GeffProps.C12", "GeffProps.C12Ellipsoid", "GeffProps.C12Gen"])
+    ck.prove(["GeffProps.C12", "GeffProps.C12Ellipsoid", "GeffProps.C12Gen", "GeffProps.C12ByteOrder"])
     ck.rule = ("graph: corpus + ALL id lists (<=3) x edge lists (quick: <=3 ids x <=2 edges and <=2 ids x 3 edges; thorough: <=3 x <=3) over the alphabet {0,1,max(dtype)} "
                "(and {min,1,max} for <=2 ids, <=2 edges), dtypes round-robin over the 8 integer dtypes (thorough: every dtype "
                "for <=2 ids, <=2 edges), each evaluated for the four validators and for validate_data under directed and "
@@ -1624,6 +1631,18 @@ def run(ck: common.Check):
             judge_config_history(ck, c, im)
         else:
             judge_reader_decl(ck, c, im)
+    # graph validation on read x byte order of each stored id array (own PRNG; the model request needs the raw bytes
+    # read back from the store, so the driver is asked after the implementation side)
+    bo_cases = list(_c12_bo.cases(_random.Random(f"C12-reader-byteorder:{ck.seed}"), ck.quick, graph_random))
+    bo_impl = common.pmap(impl_obs, bo_cases, chunksize=16)
+    bo_idx = [i for i, im in enumerate(bo_impl) if "raw" in im]
+    bo_model = drv.ask([_c12_bo.req(bo_cases[i], bo_impl[i]) for i in bo_idx]) if model is not None else None
+    bo_mo = dict(zip(bo_idx, bo_model)) if bo_model is not None else {}
+    if model is not None and bo_model is None:
+        ck.broken.append({"what": "driver Drivers/C12.lean (op read_bytes)", "detail": drv.broken})
+    for i, (c, im) in enumerate(zip(bo_cases, bo_impl)):
+        per_kind[c["kind"]] = per_kind.get(c["kind"], 0) + 1
+        _c12_bo.judge(ck, c, im, bo_mo.get(i))
     ck.extra["cases_per_kind"] = per_kind
     # a sample of the graph cases through a store and read_to_memory(data_validation=graph)
     gs = [c for c in cases if c["kind"] == "graph" and c["ids"]]
@@ -1713,6 +1732,8 @@ def replay(rp):
         judge_reader_decl(r, c, im)
     elif k == "config_history":
         judge_config_history(r, c, im)
+    elif k == "reader_byteorder":
+        _c12_bo.judge(r, c, im, None)
     print(json.dumps({"case": c, "impl": im, "failures": r.f}, default=str))
     print("REPLAY: property holds on this input" if not r.f else "REPLAY: property FAILS on this input")
     return 0 if not r.f else 1
